@@ -7,11 +7,13 @@ import (
 	"encoding/json"
 	"errors"
 	"fmt"
+	"io"
 	"os"
 	"path/filepath"
 	"runtime"
 	"strconv"
 	"strings"
+	"sync"
 	"syscall"
 	"time"
 
@@ -77,6 +79,57 @@ func main() {
 			var st map[string]any
 			json.Unmarshal(buf.Buffer.Bytes(), &st)
 			return map[string]any{"status": int(res.Status), "error": res.Error, "state": st}
+		}
+		if c["mode"] == "concurrent_idmaps" {
+			// launches with different explicit id mappings at the same time, from several goroutines: each program reports the maps it is under
+			workers, rounds := int(hx.Int(c["workers"])), int(hx.Int(c["rounds"]))
+			type bad struct {
+				Worker, Round int
+				Got, Err      string
+			}
+			var mu sync.Mutex
+			wrong, total := []bad{}, 0
+			var wg sync.WaitGroup
+			for w := 0; w < workers; w++ {
+				wg.Add(1)
+				go func(w int) {
+					defer wg.Done()
+					for k := 0; k < rounds; k++ {
+						rp, wp, _ := os.Pipe()
+						null, _ := os.Open("/dev/null")
+						r := &forkexec.Runner{Args: []string{"/bin/cat", "/proc/self/uid_map", "/proc/self/gid_map"}, Env: []string{},
+							Files: []uintptr{null.Fd(), wp.Fd(), wp.Fd()}, CloneFlags: unix.CLONE_NEWUSER,
+							UIDMappings: []syscall.SysProcIDMap{{ContainerID: 0, HostID: 1000 + w, Size: 1 + w}},
+							GIDMappings: []syscall.SysProcIDMap{{ContainerID: 0, HostID: 3000 + w, Size: 1 + w}}}
+						pid, err := r.Start()
+						wp.Close()
+						null.Close()
+						got := ""
+						if err == nil {
+							b, _ := io.ReadAll(rp)
+							got = strings.Join(strings.Fields(string(b)), " ")
+							var ws syscall.WaitStatus
+							syscall.Wait4(pid, &ws, 0, nil)
+						}
+						rp.Close()
+						want := fmt.Sprintf("0 %d %d 0 %d %d", 1000+w, 1+w, 3000+w, 1+w)
+						mu.Lock()
+						total++
+						if err != nil || got != want {
+							e := ""
+							if err != nil {
+								e = err.Error()
+							}
+							if len(wrong) < 20 {
+								wrong = append(wrong, bad{w, k, got, e})
+							}
+						}
+						mu.Unlock()
+					}
+				}(w)
+			}
+			wg.Wait()
+			return map[string]any{"launches": total, "wrong": wrong}
 		}
 		if c["mode"] == "container" {
 			// one pooled container, a history of launches with different parameters: each launch starts in the state of ITS parameters
